@@ -352,6 +352,10 @@ class Array(metaclass=MetaArray):
                 strides = cls._strides
                 items = np.prod(shape)
                 value = args[0]
+                if tuple(
+                    get_shape_from_array(value, len(shape))
+                ) != tuple(shape):
+                    raise ValueError(f"shape not valid for {value} ")
             else:  # complete dimensions
                 if len(args) == 0:
                     raise ValueError(
